@@ -96,3 +96,137 @@ def check_dtcwt_grad(cfg, sizes, rnd):
             return False, 'DTCWT %s %s/%s J=%d HxW=%dx%d layout=(%d,%d): gradient of input %d is not J^T g (%s)' % (
                 cfg.get('which', 'forward'), biort, qshift, J, H, W, o_dim, ri_dim, k, det)
     return True, 'ok %s' % (cfg,)
+
+
+if not hasattr(np, 'int'):
+    np.int = int          # the reference package predates numpy 1.24
+
+
+def _ref_pyramid(x2d, biort, qshift, J, include_scale=False):
+    import dtcwt
+    import logging
+    logging.disable(logging.WARNING)
+    t = dtcwt.Transform2d(biort=biort, qshift=qshift)
+    return t, t.forward(x2d, nlevels=J, include_scale=include_scale)
+
+
+@register('dtcwt_forward')
+def check_dtcwt_forward(cfg, sizes, rnd):
+    """real DTCWTForward vs the reference dtcwt.Transform2d.forward (shapes and values, all 6 orientations)"""
+    from pytorch_wavelets import DTCWTForward
+    biort, qshift = cfg.get('biort', 'near_sym_a'), cfg.get('qshift', 'qshift_a')
+    J = _sz(sizes, 'J', 2, 1, 4)
+    H, W = _sz(sizes, 'H', 9, 2, 40), _sz(sizes, 'W', 14, 2, 40)
+    o_dim, ri_dim = cfg.get('o_dim', 2), cfg.get('ri_dim', -1)
+    skip = cfg.get('skip_hps', False)
+    inc = cfg.get('include_scale', False)
+    rs = np.random.RandomState(rnd.randint(0, 10**6))
+    x = torch.tensor(rs.randn(2, 2, H, W))
+    f = _build64(DTCWTForward, biort=biort, qshift=qshift, J=J, o_dim=o_dim, ri_dim=ri_dim, skip_hps=skip, include_scale=inc)
+    yl, yh = f(x)
+    skipl = skip if isinstance(skip, (list, tuple)) else [skip] * J
+    incl = inc if isinstance(inc, (list, tuple)) else [inc] * J
+    for n in range(2):
+        for c in range(2):
+            t, p = _ref_pyramid(x[n, c].numpy(), biort, qshift, J, include_scale=True)
+            if any(incl):
+                for j in range(J):
+                    if incl[j]:
+                        ok, det = _close(yl[j][n, c].numpy(), p.scales[j])
+                        if not ok:
+                            return False, 'scale %d: %s (%s)' % (j + 1, det, cfg)
+                    elif yl[j].dim() != 0:
+                        return False, 'scale %d not requested but returned' % (j + 1)
+            else:
+                ok, det = _close(yl[n, c].numpy(), p.lowpass)
+                if not ok:
+                    return False, 'lowpass: %s (%s, %dx%d, J=%d)' % (det, cfg, H, W, J)
+            for j in range(J):
+                if skipl[j]:
+                    if yh[j].dim() != 0 and yh[j].numel() != 0:
+                        return False, 'level %d skipped but not empty' % (j + 1)
+                    continue
+                h = yh[j][n, c] if False else None
+                # bring the library layout back to (N, C, 6, H, W, 2)
+                perm_o, perm_r = o_dim % 6, ri_dim % 6
+                t6 = torch.movedim(yh[j], (perm_o, perm_r), (2, 5)) if True else None
+                # after moving o then ri, remaining order is N,C,H,W
+                t6 = yh[j].permute(*_inv_layout(o_dim, ri_dim))
+                got = t6[n, c, ..., 0].numpy() + 1j * t6[n, c, ..., 1].numpy()        # (6, H, W)
+                want = np.moveaxis(p.highpasses[j], -1, 0)
+                ok, det = _close(np.concatenate([got.real, got.imag]), np.concatenate([want.real, want.imag]))
+                if not ok:
+                    return False, 'band-pass level %d: %s (%s, %dx%d, J=%d)' % (j + 1, det, cfg, H, W, J)
+    return True, 'DTCWTForward %s/%s J=%d %dx%d ok' % (biort, qshift, J, H, W)
+
+
+def _inv_layout(o_dim, ri_dim):
+    o6, r6 = o_dim % 6, ri_dim % 6
+    others = [d for d in range(6) if d not in (o6, r6)]
+    # default layout axis k comes from library axis src[k]
+    return [others[0], others[1], o6, others[2], others[3], r6]
+
+
+def _to_layout(t6, o_dim, ri_dim):
+    inv = _inv_layout(o_dim, ri_dim)
+    perm = [inv.index(k) for k in range(6)]
+    return t6.permute(*perm)
+
+
+@register('dtcwt_inverse')
+def check_dtcwt_inverse(cfg, sizes, rnd):
+    """real DTCWTInverse on an arbitrary pyramid of forward-compatible shapes vs the reference inverse;
+    absent inputs (None / torch.tensor([]) / 0-dim) must behave like zeros of the right shape"""
+    import dtcwt
+    from pytorch_wavelets import DTCWTForward, DTCWTInverse
+    biort, qshift = cfg.get('biort', 'near_sym_a'), cfg.get('qshift', 'qshift_a')
+    J = _sz(sizes, 'J', 2, 1, 4)
+    H, W = _sz(sizes, 'H', 10, 2, 40), _sz(sizes, 'W', 12, 2, 40)
+    o_dim, ri_dim = cfg.get('o_dim', 2), cfg.get('ri_dim', -1)
+    rs = np.random.RandomState(rnd.randint(0, 10**6))
+    t, p0 = _ref_pyramid(rs.randn(H, W), biort, qshift, J)
+    low = rs.randn(*p0.lowpass.shape)
+    highs = [rs.randn(*h.shape) + 1j * rs.randn(*h.shape) for h in p0.highpasses]
+    absent = cfg.get('absent', {})        # {'low': kind} / {'level': j, 'kind': kind}
+    ref_low = np.zeros_like(low) if 'low' in absent else low
+    ref_highs = [np.zeros_like(h) if absent.get('level') == j else h for j, h in enumerate(highs)]
+    want = t.inverse(dtcwt.Pyramid(ref_low, tuple(ref_highs)))
+
+    def tok(kind):
+        return {'none': None, 'empty': torch.tensor([]), '0dim': torch.zeros([], dtype=torch.float64)}[kind]
+    yl = tok(absent['low']) if 'low' in absent else torch.tensor(low)[None, None]
+    yh = []
+    for j, h in enumerate(highs):
+        if absent.get('level') == j:
+            yh.append(tok(absent['kind']))
+            continue
+        d = np.stack([np.moveaxis(h, -1, 0).real, np.moveaxis(h, -1, 0).imag], axis=-1)[None, None]   # (1,1,6,H,W,2)
+        yh.append(_to_layout(torch.tensor(d), o_dim, ri_dim))
+    inv = _build64(DTCWTInverse, biort=biort, qshift=qshift, o_dim=o_dim, ri_dim=ri_dim)
+    try:
+        got = inv((yl, yh))
+    except Exception as e:
+        return False, 'DTCWTInverse raises %s: %s (%s, %dx%d J=%d)' % (type(e).__name__, str(e)[:120], cfg, H, W, J)
+    ok, det = _close(got[0, 0].numpy(), want)
+    return ok, 'DTCWTInverse %s/%s J=%d %dx%d layout=(%d,%d) absent=%s: %s' % (biort, qshift, J, H, W, o_dim, ri_dim, absent, det)
+
+
+@register('dtcwt_pr')
+def check_dtcwt_pr(cfg, sizes, rnd):
+    from pytorch_wavelets import DTCWTForward, DTCWTInverse
+    biort, qshift = cfg.get('biort', 'near_sym_a'), cfg.get('qshift', 'qshift_a')
+    J = _sz(sizes, 'J', 2, 1, 4)
+    H, W = _sz(sizes, 'H', 10, 2, 48), _sz(sizes, 'W', 12, 2, 48)
+    rs = np.random.RandomState(rnd.randint(0, 10**6))
+    x = torch.tensor(rs.randn(1, 2, H, W))
+    o_dim, ri_dim = cfg.get('o_dim', 2), cfg.get('ri_dim', -1)
+    f = _build64(DTCWTForward, biort=biort, qshift=qshift, J=J, o_dim=o_dim, ri_dim=ri_dim)
+    i = _build64(DTCWTInverse, biort=biort, qshift=qshift, o_dim=o_dim, ri_dim=ri_dim)
+    try:
+        y = i(f(x))
+    except Exception as e:
+        return False, 'raises %s: %s (%s %dx%d J=%d)' % (type(e).__name__, str(e)[:100], cfg, H, W, J)
+    if tuple(y.shape[2:]) != (H + H % 2, W + W % 2):
+        return False, 'reconstruction has extent %s for input %dx%d' % (tuple(y.shape[2:]), H, W)
+    err = float((y[..., :H, :W] - x).abs().max())
+    return err < 1e-8, 'DTCWT PR %s/%s J=%d %dx%d: err %.3g' % (biort, qshift, J, H, W, err)
